@@ -987,6 +987,18 @@ def disturb(impl: Impl, ses: Session, st, tmpdir, n):
         from qcelemental.physical_constants import context as pc_context
 
         pc_context.write_c_header(st["context"], path)
+    elif do == "scaled_conv":
+        # conversions of the radii's own unit pair that carry a NUMERIC SCALAR (a pint Quantity, a scalar-prefixed unit string):
+        # whatever the constants context memoises about them must not colour the plain conversions the lookups make afterwards
+        how = st["how"]
+        if how == "quantity":
+            qcel.constants.conversion_factor(qcel.constants.Quantity(f"{st['k']} angstrom"), "bohr")
+        elif how == "target":
+            qcel.constants.conversion_factor("angstrom", f"{st['k']} * bohr")
+        elif how == "datum":
+            qcel.Datum("l", f"{st['k']} * angstrom", 1.0).to_units("bohr")
+        else:
+            qcel.covalentradii.get("C", units=f"{st['k']} * bohr")
     else:
         raise ValueError(f"unknown step {do!r}")
 
@@ -1135,7 +1147,9 @@ def seq_disturber(rng, ex: Expect, allow_fresh=True):
     """A random non-lookup call (possibly preceded by the creation of a secondary instance)."""
     setname = rng.choice(SETS)
     target = "fresh" if allow_fresh and rng.random() < 0.35 else "live"
-    k = rng.choice(["wch", "wch", "wch", "strrep", "str", "new", "datum", "conn", "pt_header", "const_repr", "const_header"])
+    k = rng.choice(["wch", "wch", "wch", "strrep", "str", "new", "datum", "conn", "pt_header", "const_repr", "const_header", "scaled_conv"])
+    if k == "scaled_conv":
+        return {"do": "scaled_conv", "how": rng.choice(["quantity", "target", "datum", "units"]), "k": rng.choice([1.5, 2, 10, 0.5])}
     if k == "wch":
         return {"do": "wch", "set": setname, "target": target, "missing": rng.choice([None, 2.0, 0.0, 1.5, 9.99, round(rng.uniform(0.5, 5.0), 3)])}
     if k in ("strrep", "str"):
@@ -1173,6 +1187,8 @@ def seq_all_disturbers(ex: Expect):
     out.append(([{"do": "const_repr"}], ["live"]))
     for c in ("CODATA2014", "CODATA2018"):
         out.append(([{"do": "const_header", "context": c}], ["live"]))
+    for how, k in (("quantity", 1.5), ("target", 2), ("datum", 10), ("units", 2)):
+        out.append(([{"do": "scaled_conv", "how": how, "k": k}], ["live", "fresh"]))
     return out
 
 
@@ -1316,6 +1332,34 @@ def seq_model_lines(impl: Impl, steps):
     return [get_line(impl, st) if st["do"] == "get" else f"keys {st['set']}" for st in steps if st["do"] in ("get", "keys")]
 
 
+def numpy_identifier_stream(ctx: Ctx, out: Outcome, ex):
+    """The atomic number held in a numpy scalar (an element of an int32 / int16 / uint8 / int64 / float32 / float64 array of atomic
+    numbers) names the same atom as the Python int: same radius, same fallback, same exception class.  Oracle only."""
+    import qcelemental as qcel
+
+    rng = ctx.rng
+    objs = {"c": qcel.covalentradii, "v": qcel.vdwradii}
+    elems = [int(z) for z, _s, _n in ex.elements]
+    for z in rng.sample(elems, min(len(elems), ctx.scale(40, 118))) + [len(elems), len(elems) + 5, 200]:
+        for dt in ("int32", "int16", "uint8", "int64", "float32", "float64", "intp"):
+            if dt == "uint8" and z > 255:
+                continue
+            for setname, obj in objs.items():
+                for kw in ({}, {"missing": 2.5}, {"units": "angstrom"}, {"return_tuple": True}):
+                    def call(a):
+                        try:
+                            r = obj.get(a, **kw)
+                            return ("ok", (float(r.data), r.units) if kw.get("return_tuple") else float(r))
+                        except Exception as e:  # noqa
+                            return ("err", err_class(e))
+                    want, got = call(int(z)), call(getattr(np, dt)(z))
+                    out.evaluations += 1
+                    out.count("numpy_identifier:" + dt)
+                    if got != want:
+                        out.violations.append(Finding("oracle:numpy_scalar_identifier", {"op": "npid", "set": setname, "z": int(z), "dtype": dt, "kw": kw}, observed=list(got), expected=list(want),
+                                                      detail=f"get(numpy.{dt}({z})) differs from get({z})"))
+
+
 def run(ctx: Ctx) -> Outcome:
     out = Outcome()
     impl, ex = Impl(), Expect()
@@ -1336,6 +1380,7 @@ def run(ctx: Ctx) -> Outcome:
     for (family, steps), recs in zip(episodes, seq_recs):
         if pre_budget[0] > 0 and any(r.get("bad") for r in recs):
             digest_episode(impl, Outcome(), family, steps, recs, None, shrinker=shrink_now, budget=pre_budget)
+    numpy_identifier_stream(ctx, out, ex)
     import sideeffects
 
     sideeffects.exercise(out)  # the pristine-process block is done: header writers / printers / comparison reports now, before the exhaustive sweeps
@@ -1402,6 +1447,9 @@ def replay(ctx: Ctx, case) -> Outcome:
     out = Outcome()
     impl, ex = Impl(), Expect()
     op = case.get("op") if isinstance(case, dict) else None
+    if op == "npid":
+        numpy_identifier_stream(ctx, out, ex)
+        return out
     if op == "get":
         c = {k: case[k] for k in ("set", "arg", "rt", "units", "missing", "expect")}
         ml = ctx.run_model(DRIVER, [get_line(impl, c)])[0] if ctx.model_available else None
